@@ -43,6 +43,10 @@ CHECKS = {
    text="Nine scenario families (one query twice, two-variable query, two queries sharing a variable / a sub-expression, exists, for_all, the() then an(), rule query, rule query with refinement) are run under three modes: sequential, one evaluation nested in every step of another, and a symbolic schedule (bounded symbolic choices among start(q_i) / next(it_j) / abandon(it_j), <= 3 live iterators) - the schedule and the attribute values are symbolic variables, every feasible combination within the bound is explored on the real engine, and every evaluation's output must be a prefix of (and, when exhausted, equal to) what a fresh structurally identical query produces alone.",
    note="Schedules of <= 4 (quick) / <= 7 (thorough) steps, 2 objects per domain; single-threaded interleavings only (as the property states). Reference = the engine run alone (absolute correctness is C01/C02/C08). One known finding (nested re-evaluation of a rule query with a refinement). Trusted: z3, symx proxies.",
    technique=SYMX + "; schedules are bounded symbolic choice variables explored exhaustively"),
+ "C04": dict(category="model_checking", design="DESIGN.md 4 C04",
+   text="to_dao / from_dao run on symbolic object graphs against a DAO layer generated at check time by the current tree's ORMatic: the graph shape (classes incl. subclasses, parent links with self references and cycles, shared targets, ordered collections with repeats, None-ness, alternatively mapped objects) is a vector of bounded symbolic choices explored exhaustively, every scalar field is an unbounded z3 integer that flows through SQLAlchemy's instrumented attributes. Oracle: bisimulation with identity classes between original and round-tripped graph (same classes, same sharing, order, None positions) and, decided by the solver on every path, equality of all scalar fields.",
+   note="2 nodes (quick) / 3 nodes (thorough), pool of 2 shared targets, collections of <= 2/3 elements; enum/datetime/str/float/bool/JSON-list values from small pools; custom TypeDecorator columns and self-referential collections outside. Trusted: z3, symx proxies (native re-run on seeded values every run), SQLAlchemy attribute instrumentation.",
+   technique=SYMX),
 }
 NA_REASON = "check not built yet (build in progress, see DESIGN.md section 9 for the build order)"
 NA = {}
